@@ -207,3 +207,66 @@ Proof.
   simpl in E. subst parts. split; [|split; assumption].
   rewrite S. simpl. ring.
 Qed.
+
+Lemma floor_bounds : forall x, inject_Z (Qfloor x) <= x /\ x < inject_Z (Qfloor x) + 1.
+Proof.
+  intros x. split; [apply Qfloor_le|].
+  pose proof (Qlt_floor x) as H. rewrite inject_Z_plus in H. exact H.
+Qed.
+
+(* ---- positive unit sizes: what is split off is a whole number of units and leaves less than one unit *)
+Lemma trunc_in_remainder : forall u val, 0 < u -> 0 <= val ->
+  0 <= val - nbt_trunc_in u val /\ val - nbt_trunc_in u val < u /\ 0 <= nbt_trunc_in u val.
+Proof.
+  intros u val Hu Hv. unfold nbt_trunc_in, q_trunc, qtrunc.
+  assert (Hq : 0 <= val / u) by (apply Qle_shift_div_l; [assumption|lra]).
+  assert (E : Qle_bool 0 (val / u) = true) by (apply Qle_bool_iff; assumption). rewrite E.
+  destruct (floor_bounds (val / u)) as [A B].
+  set (f := inject_Z (Qfloor (val / u))) in *.
+  assert (V : val == (val / u) * u) by (field; lra).
+  assert (F0 : 0 <= f).
+  { unfold f. change 0 with (inject_Z 0). rewrite <- Zle_Qle. rewrite <- (Qfloor_Z 0).
+    apply Qfloor_resp_le. assumption. }
+  split; [|split].
+  - assert (f * u <= (val / u) * u) by (apply Qmult_le_compat_r; lra). lra.
+  - assert ((val / u) * u < (f + 1) * u) by (apply Qmult_lt_compat_r; assumption). lra.
+  - apply Qmult_le_0_compat; lra.
+Qed.
+
+Lemma zeros_nonneg : forall (A : Type) (l : list A), Forall (fun p => 0 <= p) (map (fun _ => 0) l).
+Proof. induction l; simpl; constructor; [lra|assumption]. Qed.
+
+Lemma mixed_nonneg : forall units val acc l,
+  Forall (fun u => 0 < u) units -> 0 <= val -> Forall (fun p => 0 <= p) acc ->
+  mixed_unit_list val units acc = Some l -> Forall (fun p => 0 <= p) l.
+Proof.
+  induction units as [|u rest IH]; intros val acc l Hu Hv Ha H; [discriminate|].
+  inversion Hu as [|? ? Hu1 Hur]; subst. cbn [mixed_unit_list] in H.
+  destruct (Qeq_bool val 0).
+  - inversion H; subst. apply Forall_app. split; [assumption|]. apply (zeros_nonneg Q (u :: rest)).
+  - destruct rest as [|u2 rest'].
+    + inversion H; subst. apply Forall_app. split; [assumption|]. constructor; [assumption|constructor].
+    + destruct (trunc_in_remainder u val Hu1 Hv) as (R1 & R2 & R3).
+      apply (IH (val - nbt_trunc_in u val) (acc ++ [nbt_trunc_in u val]) l); try assumption.
+      apply Forall_app. split; [assumption|]. constructor; [lra|constructor].
+Qed.
+
+(* ------------------------------------------------------------ further pairs *)
+Lemma temperature_aliases : forall x,
+  nbt_celsius (nbt_from_celsius x) == x /\ nbt_degree_celsius (nbt_from_celsius x) == x /\
+  nbt_fahrenheit (nbt_from_fahrenheit x) == x /\ nbt_degree_fahrenheit (nbt_from_fahrenheit x) == x.
+Proof.
+  intros x. unfold nbt_celsius, nbt_degree_celsius, nbt_fahrenheit, nbt_degree_fahrenheit.
+  destruct (celsius_inv x) as [C _]. destruct (fahrenheit_inv x) as [F _]. repeat split; assumption.
+Qed.
+
+Lemma reverse_app : forall (A : Type) (a b : list A), nbt_reverse (a ++ b) = nbt_reverse b ++ nbt_reverse a.
+Proof.
+  induction a as [|x a IH]; intros b; simpl; [rewrite app_nil_r; reflexivity|].
+  rewrite IH, app_assoc. reflexivity.
+Qed.
+
+Lemma reverse_involutive : forall (A : Type) (xs : list A), nbt_reverse (nbt_reverse xs) = xs.
+Proof.
+  induction xs as [|x r IH]; [reflexivity|]. simpl. rewrite reverse_app, IH. reflexivity.
+Qed.
